@@ -583,7 +583,7 @@ theorem lapse_deliver (cfg : Cfg) (hs : cfg.skipStale = false) (hd : cfg.delEarl
   simp only [ht] at hfl
   obtain ⟨hfb, hacc, hrn, hnl, dcur, dn, hsubs, htbl, hgnot, hfr, hgE, hdl⟩ := hfl
   simp only [TaskOk, ht] at htask
-  obtain ⟨hcurmem, _, hglt⟩ := htask
+  obtain ⟨hcurmem, _, hglt, _⟩ := htask
   have hglt' : granted.getD cur < st.nextSid := by
     cases granted with
     | none => exact hcore.subsLt _ hcurmem
